@@ -1,6 +1,6 @@
 // C08 harness: Interpolation / Interpolation_2D integrals, extrema and prefactor operations (grammar: checks/C08.py).
-// One line = one table + a list of operations. Set_Prefactor / Multiply act on the object; every query runs on a copy of
-// it, so that the interval search always starts from the state of a fresh object (history independence is property C09).
+// One line = one object (made by one of the constructors) + a list of operations. Set_Prefactor / Multiply act on the object;
+// in the fresh modes every query runs on a copy of it, in the history modes on the object itself.
 #include "common.hpp"
 #include "libphysica/Numerics.hpp"
 #include <algorithm>
@@ -13,26 +13,20 @@ static std::vector<double> scaled(double dim, std::vector<double> v)
 	return v;
 }
 static const double G3[3] = {0.5 - std::sqrt(0.6) / 2.0, 0.5, 0.5 + std::sqrt(0.6) / 2.0};
-static void handler(vh::Reader& r, vh::Out& o)
+// the operations of a 1-D case on the object obj (xa = its abscissae after the unit scaling)
+static void run1(Interpolation& obj, const std::vector<double>& xa, bool fresh, vh::Reader& r, vh::Out& o)
 {
-	std::string op = r.word();
-	if(op == "t1" || op == "h1")
 	{
-		// t1: every query on a copy of the object (fresh search state); h1: every query on the one live object, so that
+		// fresh: every query on a copy of the object (fresh search state); otherwise every query on the one live object, so that
 		// Locate's cached index / search-method switch sees the whole history (the model is the fresh-object semantics).
-		const bool fresh = (op == "t1");
-		double xd = r.num(), fd = r.num();
-		std::vector<double> xs = r.list(), ys = r.list();
-		Interpolation obj(xs, ys, xd, fd);
 		Interpolation tmp;
-		std::vector<double> xa = scaled(xd, xs);
-		auto cur			   = [&obj, &tmp, fresh]() -> Interpolation& { if(!fresh) return obj; tmp = obj; return tmp; };
-		auto f				   = [&cur](double x) { return cur().Interpolate(x); };
-		auto integ			   = [&cur](double a, double b) { return cur().Integrate(a, b); };
-		auto lmin			   = [&cur](double a, double b) { return cur().Local_Minimum(a, b); };
-		auto lmax			   = [&cur](double a, double b) { return cur().Local_Maximum(a, b); };
-		auto gmin			   = [&cur]() { return cur().Global_Minimum(); };
-		auto gmax			   = [&cur]() { return cur().Global_Maximum(); };
+		auto cur   = [&obj, &tmp, fresh]() -> Interpolation& { if(!fresh) return obj; tmp = obj; return tmp; };
+		auto f	   = [&cur](double x) { return cur().Interpolate(x); };
+		auto integ = [&cur](double a, double b) { return cur().Integrate(a, b); };
+		auto lmin  = [&cur](double a, double b) { return cur().Local_Minimum(a, b); };
+		auto lmax  = [&cur](double a, double b) { return cur().Local_Maximum(a, b); };
+		auto gmin  = [&cur]() { return cur().Global_Minimum(); };
+		auto gmax  = [&cur]() { return cur().Global_Maximum(); };
 		long nq				   = r.integer();
 		for(long q = 0; q < nq; q++)
 		{
@@ -133,13 +127,14 @@ static void handler(vh::Reader& r, vh::Out& o)
 			}
 		}
 	}
-	else if(op == "t2")
+}
+// the operations of a 2-D case
+static void run2(Interpolation_2D& obj, const std::vector<double>& xa, const std::vector<double>& ya, bool fresh, vh::Reader& r, vh::Out& o)
+{
 	{
-		double xd = r.num(), yd = r.num(), fd = r.num();
-		std::vector<double> xs = r.list(), ys = r.list();
-		std::vector<std::vector<double>> ft = r.table();
-		Interpolation_2D obj(xs, ys, ft, xd, yd, fd);
-		std::vector<double> xa = scaled(xd, xs), ya = scaled(yd, ys);
+		// fresh: every query on a copy of the object; otherwise on the one live object (its two index searches keep their history)
+		Interpolation_2D tmp;
+		auto cur = [&obj, &tmp, fresh]() -> Interpolation_2D& { if(!fresh) return obj; tmp = obj; return tmp; };
 		long nq = r.integer();
 		for(long q = 0; q < nq; q++)
 		{
@@ -151,41 +146,33 @@ static void handler(vh::Reader& r, vh::Out& o)
 			else if(w == "I")
 			{
 				double x = r.num(), y = r.num();
-				Interpolation_2D c = obj;
-				o.f(c.Interpolate(x, y));
+				o.f(cur().Interpolate(x, y));
 			}
 			else if(w == "g")
 			{
-				Interpolation_2D c = obj;
-				o.f(c.Global_Minimum());
+				o.f(cur().Global_Minimum());
 			}
 			else if(w == "G")
 			{
-				Interpolation_2D c = obj;
-				o.f(c.Global_Maximum());
+				o.f(cur().Global_Maximum());
 			}
 			else if(w == "Z")
 			{
 				long n = r.integer();
-				{
-					Interpolation_2D c = obj;
-					o.f(c.Global_Minimum());
-					o.f(c.Global_Maximum());
-				}
+				o.f(cur().Global_Minimum());
+				o.f(cur().Global_Maximum());
 				double x0 = xa.front(), x1 = xa.back(), y0 = ya.front(), y1 = ya.back();
 				for(long a = 0; a <= n; a++)
 				{
 					double x = (a == n) ? x1 : x0 + (x1 - x0) * double(a) / double(n);
 					for(long b = 0; b <= n; b++)
 					{
-						double y		   = (b == n) ? y1 : y0 + (y1 - y0) * double(b) / double(n);
-						Interpolation_2D c = obj;
-						o.f(c.Interpolate(x, y));
+						double y = (b == n) ? y1 : y0 + (y1 - y0) * double(b) / double(n);
+						o.f(cur().Interpolate(x, y));
 					}
 				}
 				// one evaluation inside the 1 % extrapolation tolerance
-				Interpolation_2D c = obj;
-				o.f(c.Interpolate(x0 - 0.5 * (1e-2 * (xa[1] - xa[0])), y0));
+				o.f(cur().Interpolate(x0 - 0.5 * (1e-2 * (xa[1] - xa[0])), y0));
 			}
 			else
 			{
@@ -193,6 +180,62 @@ static void handler(vh::Reader& r, vh::Out& o)
 				return;
 			}
 		}
+	}
+}
+static std::vector<double> column(const std::vector<std::vector<double>>& rows, size_t k, bool sort_unique)
+{
+	std::vector<double> v;
+	for(auto& row : rows)
+		if(row.size() > k)
+			v.push_back(row[k]);
+	if(sort_unique)
+	{
+		std::sort(v.begin(), v.end());
+		v.erase(std::unique(v.begin(), v.end()), v.end());
+	}
+	return v;
+}
+static void handler(vh::Reader& r, vh::Out& o)
+{
+	std::string op = r.word();
+	if(op == "t1" || op == "h1")
+	{
+		double xd = r.num(), fd = r.num();
+		std::vector<double> xs = r.list(), ys = r.list();
+		Interpolation obj(xs, ys, xd, fd);
+		run1(obj, scaled(xd, xs), op == "t1", r, o);
+	}
+	else if(op == "d1" || op == "e1")	// constructor from rows (x, f); e1 = history mode
+	{
+		double xd = r.num(), fd = r.num();
+		std::vector<std::vector<double>> rows = r.table();
+		Interpolation obj(rows, xd, fd);
+		run1(obj, scaled(xd, column(rows, 0, false)), op == "d1", r, o);
+	}
+	else if(op == "t0" || op == "h0")	// default constructor; h0 = history mode
+	{
+		Interpolation obj;
+		run1(obj, {-1.0, 0.0, 1.0}, op == "t0", r, o);
+	}
+	else if(op == "t2" || op == "h2")	// h2 = history mode
+	{
+		double xd = r.num(), yd = r.num(), fd = r.num();
+		std::vector<double> xs = r.list(), ys = r.list();
+		std::vector<std::vector<double>> ft = r.table();
+		Interpolation_2D obj(xs, ys, ft, xd, yd, fd);
+		run2(obj, scaled(xd, xs), scaled(yd, ys), op == "t2", r, o);
+	}
+	else if(op == "d2")	  // constructor from a data table of rows (x, y, f)
+	{
+		double xd = r.num(), yd = r.num(), fd = r.num();
+		std::vector<std::vector<double>> rows = r.table();
+		Interpolation_2D obj(rows, xd, yd, fd);
+		run2(obj, scaled(xd, column(rows, 0, true)), scaled(yd, column(rows, 1, true)), true, r, o);
+	}
+	else if(op == "z2")	  // default constructor
+	{
+		Interpolation_2D obj;
+		run2(obj, {-1.0, 0.0, 1.0}, {-1.0, 0.0, 1.0}, true, r, o);
 	}
 	else
 		o.w("HARNESSERR unknown_op");
